@@ -34,6 +34,7 @@ Entries == <<
   E("cue.mod/Module.cue", "reg", "small", "modfile-case"),
   E("sub/cue.mod/module.cue", "reg", "small", "nested-module"),
   E("sub/x.cue", "reg", "small", "file-next-to-nested-module"),
+  E("sub/cue.mod", "reg", "small", "nested-cuemod-file"),          \* a regular file named cue.mod marks sub/ as another module too
   E("cue.mod/local-module.cue", "reg", "small", "local-module-file"),
   E(".config/x.cue", "reg", "small", "leading-dot-directory"),
   E("LICENSE", "reg", "small", "licence"),
@@ -57,8 +58,8 @@ Classify(i, A, via) ==
               "windows-reserved", "invalid-utf8", "cuemod-dir-case", "modfile-case", "forbidden-punctuation",
               "modfile-oversize", "licence-oversize"} -> "invalid"
     \* a nested module is left out when a zip is built from files, and must not be present in a zip
-    [] w = "nested-module" -> IF via = "zip" THEN "invalid" ELSE "omitted"
-    [] w = "file-next-to-nested-module" -> IF Has(A, "nested-module") THEN (IF via = "zip" THEN "valid" ELSE "omitted") ELSE "valid"
+    [] w \in {"nested-module", "nested-cuemod-file"} -> IF via = "zip" THEN "invalid" ELSE "omitted"
+    [] w = "file-next-to-nested-module" -> IF Has(A, "nested-module") \/ Has(A, "nested-cuemod-file") THEN (IF via = "zip" THEN "valid" ELSE "omitted") ELSE "valid"
     [] w = "local-module-file" -> IF via = "zip" THEN "invalid" ELSE "omitted"
     [] w = "hg-archival" -> IF via = "zip" THEN "valid" ELSE "omitted"
     \* a symbolic link is left out of a file list; for an entry of a zip that merely carries the
@@ -75,7 +76,9 @@ Classify(i, A, via) ==
     [] OTHER -> "valid"
 
 \* two entries with the same path cannot be in one file set
-Consistent(A) == \A i, j \in A : i # j => Entries[i].p # Entries[j].p
+Consistent(A) == /\ \A i, j \in A : i # j => Entries[i].p # Entries[j].p
+                 \* sub/cue.mod cannot be a file and a directory in one file set
+                 /\ ~(Has(A, "nested-module") /\ Has(A, "nested-cuemod-file"))
 
 \* the archive as a whole is acceptable
 ArchiveOK(A, via) ==
@@ -101,7 +104,7 @@ CreatedZipOK == okFiles =>
    LET V == {i \in arch : files[i] = "valid"} IN ArchiveOK(V, "zip")
 \* checking as files and as zip agree except for the two documented cases
 CheckersAgree == \A i \in arch : files[i] # zipv[i] =>
-   Why(i) \in {"local-module-file", "symlink", "nested-module", "file-next-to-nested-module", "hg-archival"}
+   Why(i) \in {"local-module-file", "symlink", "nested-module", "nested-cuemod-file", "file-next-to-nested-module", "hg-archival"}
 
 TablesInit == arch = [paths |-> [i \in 1..Len(Entries) |-> Entries[i].p], types |-> [i \in 1..Len(Entries) |-> Entries[i].t],
                       sizes |-> [i \in 1..Len(Entries) |-> Entries[i].sz], why |-> [i \in 1..Len(Entries) |-> Entries[i].why]]
